@@ -4,6 +4,7 @@ import (
 	"encoding/json"
 	"fmt"
 	"math/rand"
+	"os"
 	"sort"
 	"strings"
 
@@ -302,6 +303,10 @@ func ExecConformance(c *Check, prop string, bins map[string]string, vs []Variant
 	if err != nil {
 		Infra("schema: %v", err)
 	}
+	if rp := os.Getenv("VERIF_REPLAY"); rp != "" {
+		replayOne(c, prop, bins, vs, schemaRaw, m, rp)
+		return
+	}
 	// 1. operations + fault-free baselines
 	var base []*Scenario
 	for i := 0; i < nOps; i++ {
@@ -476,6 +481,55 @@ func ExecConformance(c *Check, prop string, bins map[string]string, vs []Variant
 					c.Violate("variant-divergence", fmt.Sprintf("scenario %s: response of %s differs from %s\n%s\nvs\n%s", id, v.ID(), refV, trunc(s, 600), trunc(ref, 600)), map[string]any{"id": id})
 				}
 			}
+		}
+	}
+}
+
+// replayOne re-executes the scenario stored in a replay file (written by
+// Check.Violate) on its variant and validates the fresh trace.
+func replayOne(c *Check, prop string, bins map[string]string, vs []Variant, schemaRaw []byte, m ExecMode, path string) {
+	b, err := os.ReadFile(path)
+	if err != nil {
+		Infra("replay file: %v", err)
+	}
+	var rec struct {
+		Key      string    `json:"key"`
+		Scenario *Scenario `json:"scenario"`
+	}
+	if err := json.Unmarshal(b, &rec); err != nil || rec.Scenario == nil || rec.Scenario.Query == "" {
+		Infra("replay file %s does not hold an executor scenario", path)
+	}
+	s := rec.Scenario
+	s.Result, s.Crashed, s.Stderr = nil, false, ""
+	bin, ok := bins[s.Variant]
+	if !ok {
+		bin, s.Variant = bins[vs[0].ID()], vs[0].ID()
+	}
+	if err := RunScenarios(bin, []*Scenario{s}, 1, m.Env); err != nil {
+		Infra("replay run: %v", err)
+	}
+	c.AddEvals(1)
+	c.Class("replay")
+	c.Class("replay:" + rec.Key)
+	c.Sample(map[string]any{"replay": path, "query": s.Query, "variant": s.Variant})
+	switch {
+	case s.Crashed || s.Result == nil:
+		c.Violate("process-crash"+faultSuffix(s), "probe died on replay\n"+tail(s.Stderr, 2000), s)
+	case s.Result.Hung:
+		c.Violate("hang", "operation did not return on replay", s)
+	case len(s.Result.Resps) == 0:
+		c.Violate("no-response"+faultSuffix(s), "no response on replay", s)
+	default:
+		rej, err := ValidateBatch(c, m.Module, m.Config, schemaRaw, []*Scenario{s}, m.Lines, Work(prop, "replay"))
+		if err != nil {
+			Infra("replay validation: %v", err)
+		}
+		for _, rj := range rej {
+			key := RejectKey(rj)
+			if m.Classify != nil {
+				key = m.Classify(rj)
+			}
+			c.Violate(key, rj.Describe(), rj.Scenario)
 		}
 	}
 }
